@@ -35,10 +35,14 @@ CHAIN_TOUR = ('mainnet', 'testnet', 'signet', 'regtest', 'mainnet', 'signet', 't
 # ---- shadow <-> message tuple -------------------------------------------------------------------
 
 def addr_sh(a):
+    if a is None:
+        return None
     return dict(protover=a[0], nTime=a[1], nServices=a[2], ip=bytes(a[3]), port=a[4])
 
 
 def addr_tu(d):
+    if d is None:
+        return None
     return (d['protover'], d['nTime'], d['nServices'], d['ip'], d['port'])
 
 
@@ -100,8 +104,33 @@ def norm_tx(t):
     return t
 
 
+def parsed_value(m):
+    """the field values `stream_deserialize` yields for the frame of `m` — what the shadow of the destination
+    register of a `P` step must hold.  Beyond C01's normTx this is the gating of `msg_version.msg_deser`: a frame
+    below 106 / 209 / 70001 does not carry addrFrom, nNonce, strSubVer / the height / the relay flag, so the parsed
+    object has None / None / True there whatever the sender's object held; 10300 is read as 300; the addresses of a
+    version message travel without time (parsed nTime = 0)."""
+    m = norm_msg(m)
+    if m[0] != 'version':
+        return m
+    (_, ver, sv, t, to, fr, nonce, sub, height, relay) = m
+    if ver == 10300:
+        ver = 300
+    to = to[:1] + (0,) + to[2:]
+    if ver >= 106:
+        fr = None if fr is None else fr[:1] + (0,) + fr[2:]
+    else:
+        fr = nonce = sub = None
+    if ver < 209:
+        height = None
+    if ver < 70001:
+        relay = 1
+    return ('version', ver, sv, t, to, fr, nonce, sub, height, relay)
+
+
 def norm_msg(m):
-    """what parsing yields (C01's normTx): histories only use values that parse back to themselves"""
+    """C01's normTx: an all-empty transaction witness is no witness (the only normalisation applied to the values
+    a history starts from; what a parse yields is `parsed_value`)"""
     if m[0] == 'tx':
         return ('tx', norm_tx(m[1]))
     if m[0] == 'block':
@@ -253,7 +282,7 @@ class History:
             st[2] = False            # 24 bytes consumed, stream out of step from here on
             return False
         st[1] += 1
-        self.regs[reg] = (k, copy.deepcopy(s))
+        self.regs[reg] = (k, to_shadow(parsed_value(from_shadow(k, copy.deepcopy(s)))))
         return True
 
 
@@ -285,15 +314,16 @@ def edit_catalogue(rng, kind, s, T):
                 'set!nNonce!int!%d' % T.pick(rng, T.U64E, 64),
                 'set!nStartingHeight!int!%d' % T.pick_int(rng, T.I32E, 32),
                 'set!fRelay!int!%d' % (rng.choice([0, 1, 2, 255]) if s['nVersion'] >= 70001 else 1),
-                'set!strSubVer!hex!%s' % _hx(rng.randbytes(len(s['strSubVer']))),
+                'set!strSubVer!hex!%s' % _hx(rng.randbytes(len(s['strSubVer'] or b''))),
                 'set!strSubVer!hex!%s' % _hx(rng.randbytes(rng.choice([0, 1, 7, 0xfd]))),
                 'set!addrTo.nServices!int!%d' % T.pick(rng, T.U64E, 64),
                 'set!addrTo.port!int!%d' % T.pick(rng, T.U16E, 16),
-                'set!addrTo!ip!%s' % _hx(T.gen_ip(rng)),
-                'set!addrFrom.nServices!int!%d' % T.pick(rng, T.U64E, 64),
-                'set!addrFrom.port!int!%d' % T.pick(rng, T.U16E, 16),
-                'set!addrFrom!ip!%s' % _hx(T.gen_ip(rng)),
-                'set!addrTo!addr!%s' % new_addr(True), 'set!addrFrom!addr!%s' % new_addr(True)]
+                'set!addrTo!ip!%s' % _hx(T.gen_ip(rng))]
+        if s['addrFrom'] is not None:
+            out += ['set!addrFrom.nServices!int!%d' % T.pick(rng, T.U64E, 64),
+                    'set!addrFrom.port!int!%d' % T.pick(rng, T.U16E, 16),
+                    'set!addrFrom!ip!%s' % _hx(T.gen_ip(rng))]
+        out += ['set!addrTo!addr!%s' % new_addr(True), 'set!addrFrom!addr!%s' % new_addr(True)]
     elif kind == 'addr':
         n = len(s['addrs'])
         if n:
@@ -367,15 +397,23 @@ def histories(rng, T, kinds, big):
             h.N('a', small_msg(rng, kind, T), rng.randrange(64))
             h.F('a')
             h.F('a')
-            edits = edit_catalogue(rng, kind, h.regs['a'][1], T)
-            for d in edits:
-                h.E('a', d)
+            i = 0
+            while True:
+                # recomputed on the current values: an edit must be applicable to the object as it is now
+                edits = edit_catalogue(rng, kind, h.regs['a'][1], T)
+                if i >= len(edits):
+                    break
+                h.E('a', edits[i])
                 h.F('a')
+                i += 1
             h.S('s', ['a'])
             if h.P('s', 'b'):
                 h.F('b')
-                for d in edit_catalogue(rng, kind, h.regs['b'][1], T)[:6]:
-                    h.E('b', d)
+                for i in range(6):
+                    edits = edit_catalogue(rng, kind, h.regs['b'][1], T)
+                    if i >= len(edits):
+                        break
+                    h.E('b', edits[i] if rng.random() < 0.5 else rng.choice(edits))
                     h.F('b')
                     h.F('a')
                 h.S('t', ['b', 'a'])
